@@ -17,6 +17,7 @@ import Qv.Drv.C17
 import Qv.Drv.C16
 import Qv.Drv.C19
 import Qv.Drv.C10
+import Qv.Drv.C01
 /-! Line protocol: `<op> <json>` per line in, one JSON document per line out. -/
 open Lean
 
@@ -55,7 +56,14 @@ def handlers : List (String × (Json → Except String Json)) := [
   ("C16.channel", Qv.Drv.C16.channelJ),
   ("C19.labels", Qv.Drv.C19.labelsJ),
   ("C19.signs", Qv.Drv.C19.signsJ),
-  ("C10.step", Qv.Drv.C10.stepJ)
+  ("C10.step", Qv.Drv.C10.stepJ),
+  ("C01.csr_of_dense", Qv.Drv.C01.csrOfDenseJ),
+  ("C01.dense_of_csr", Qv.Drv.C01.denseOfCsrJ),
+  ("C01.add_csr", Qv.Drv.C01.addCsrJ),
+  ("C01.transpose_csr", Qv.Drv.C01.transposeCsrJ),
+  ("C01.kron_csr", Qv.Drv.C01.kronCsrJ),
+  ("C01.dia_abs", Qv.Drv.C01.diaAbsJ),
+  ("C01.dia_of_dense", Qv.Drv.C01.diaOfDenseJ)
 ]
 
 def handle (line : String) : String :=
